@@ -53,6 +53,8 @@ pub struct Interleaving {
     pub res_b: Option<Result<Result<Option<Id>, String>, String>>,
     pub state: Vec<StoreState>,
     pub timed_out: bool,
+    /// the second command stalled behind the parked one (shared thread pool); the gate was opened and both ran concurrently
+    pub released_early: bool,
 }
 
 /// run A up to its k-th backend operation, then B completely, then the rest of A
@@ -66,6 +68,8 @@ pub fn interleave(base: &[StoreState], key: &rustic_core::repofile::MasterKey, a
     let mut res_b = None;
     let mut parked = false;
     let mut timed_out = false;
+    let mut released_early = false;
+    let b_done = AtomicBool::new(false);
     let res_a = std::thread::scope(|s| {
         let h = s.spawn(|| {
             let r = a.run(&env_a);
@@ -75,7 +79,30 @@ pub fn interleave(base: &[StoreState], key: &rustic_core::repofile::MasterKey, a
         });
         parked = uni.wait_parked(&|| done.load(Ordering::SeqCst), Duration::from_secs(60));
         if parked {
-            res_b = Some(b.run(&env_b));
+            // B runs in a thread of its own so that the harness can break an in-process cycle: both commands share
+            // rayon's process-global pool, and a pool thread working for B may steal (and then be parked inside) a
+            // job of A while it waits. Two processes cannot do that to each other. When B makes no progress the gate
+            // is opened; A and B then simply run concurrently - still a legal schedule for the property.
+            let hb = s.spawn(|| {
+                let r = b.run(&env_b);
+                b_done.store(true, Ordering::SeqCst);
+                r
+            });
+            let start = std::time::Instant::now();
+            let mut last = (uni.all_ops(), std::time::Instant::now());
+            while !b_done.load(Ordering::SeqCst) {
+                std::thread::sleep(Duration::from_millis(2));
+                let n = uni.all_ops();
+                if n != last.0 {
+                    last = (n, std::time::Instant::now());
+                }
+                if last.1.elapsed() > Duration::from_millis(1500) || start.elapsed() > Duration::from_secs(120) {
+                    released_early = true;
+                    break;
+                }
+            }
+            uni.release_gate();
+            res_b = Some(hb.join().unwrap_or_else(|_| Err("thread panicked".to_string())));
         } else if !done.load(Ordering::SeqCst) {
             timed_out = true;
         }
@@ -87,7 +114,7 @@ pub fn interleave(base: &[StoreState], key: &rustic_core::repofile::MasterKey, a
         // A finished before reaching operation k: B simply runs afterwards
         res_b = Some(b.run(&env_b));
     }
-    Interleaving { parked, res_a, res_b, state: uni.snapshot(), timed_out }
+    Interleaving { parked, res_a, res_b, state: uni.snapshot(), timed_out, released_early }
 }
 
 /// number of backend operations A issues when run alone
@@ -231,6 +258,9 @@ fn one_case(ctx: &Ctx, case: u64, r: &mut Rng, rep: &mut Report) {
         if il.parked {
             rep.count("interleavings_with_real_overlap", 1);
         }
+        if il.released_early {
+            rep.count("interleavings_where_gate_was_opened_early", 1);
+        }
         let mut extra = BTreeMap::new();
         for (res, op) in [(Some(&il.res_a), &a), (il.res_b.as_ref(), &b)] {
             match res {
@@ -267,7 +297,10 @@ fn one_case(ctx: &Ctx, case: u64, r: &mut Rng, rep: &mut Report) {
 
 pub fn run(ctx: &Ctx) -> (Report, Meta) {
     let n = ctx.tier.pick(24u64, 400);
-    let rep = run_cases(ctx, n, &one_case);
+    // few cases at a time: a parked command keeps pool threads of the (shared, process-global) rayon pool busy
+    let mut c = ctx.clone();
+    c.threads = ctx.threads.min(4);
+    let rep = run_cases(&c, n, &one_case);
     let meta = Meta {
         level: "exploration",
         rule: "case = scenario (generated config, 3 backups, the first forgotten so that its packs are prunable) x pairing {backup of the forgotten content || prune, prune || that backup, backup || backup, backup of new content || prune}; the first command runs in its own thread through repository handles of its own party and is PARKED by the storage gate at its k-th backend operation (reads, lists, writes all count) while the second command runs to completion, then resumes; k sweeps all operations (thorough) or a boundary+random sample (quick); prune is non-instant with keep-delete 1 h. After a follow-up prune (not for backup||backup): check(read_data) clean, every snapshot present reads back equal to the model of the source it was taken from, raw reachability complete. distinct_nontrivial = distinct (pairing, position class) with real overlap".to_string(),
@@ -275,6 +308,7 @@ pub fn run(ctx: &Ctx) -> (Report, Meta) {
         assumptions: vec![
             "overlap granularity is one backend operation; both commands run in one process on handles of their own (the library takes no locks)".to_string(),
             "two-level interleavings (second command itself parked) are not generated".to_string(),
+            "both commands share rayon's process-global pool; when a pool thread working for the second command steals a job of the parked first command the second command stalls, which two processes cannot do to each other: the harness detects 1.5 s without storage progress, opens the gate and lets both run concurrently (counter interleavings_where_gate_was_opened_early); the outcome is judged all the same, any schedule has to satisfy the property".to_string(),
             "premise of the property: keep-delete (1 h) exceeds the duration of the overlapped backup".to_string(),
         ],
     };
